@@ -59,6 +59,9 @@ func fieldSig(d *idl.Def, f *idl.Field, dir string) string {
 	return fmt.Sprintf("%s/%s/%s/%s/default=%v", dir, d.Kind, f.Type.Shape(1), d.EffReq(f), f.Default != nil)
 }
 
+// c02Prefix is the finding-key prefix of c02Unit (C16 replays the same vectors on trimmed programs).
+var c02Prefix = "C02"
+
 func C02(r *vlib.Run) {
 	r.Rule = "one evaluation = one comparison of a generated Write with the reference decoder, of a generated Read (object dump, getters, IsSet) with the reference encoding of a model value, or of a Read on a perturbed encoding (unknown field of each wire type inserted at field boundaries of any depth, a field retagged to another wire type, a required field deleted), for every struct/union/exception and synthesized args/result type of generated programs under presentation-only configurations; distinct = distinct (direction, struct kind, field type shape, requiredness, has-default) signatures whose comparison was actually made, plus perturbation kinds"
 	r.Assume("values with NaN in map keys / set elements are not generated; absent fields whose default is a struct literal are not asserted (DESIGN C3.3/C3.4)")
@@ -225,7 +228,7 @@ func c02Unit(r *vlib.Run, rng *vlib.Rng, u *harness.Unit, tm *typeMap, encodings
 		if last >= 0 && last < len(cases) {
 			c = cases[last]
 		}
-		key := "C02/guest-died/" + fatal
+		key := c02Prefix + "/guest-died/" + fatal
 		if fatal == "timeout" {
 			r.Inconclusive(fmt.Sprintf("unit %s guest watchdog at command %d", u.Name, last))
 		} else {
@@ -248,7 +251,7 @@ func c02Unit(r *vlib.Run, rng *vlib.Rng, u *harness.Unit, tm *typeMap, encodings
 			continue
 		}
 		bad := func(k, f string, a ...interface{}) {
-			r.Violation("C02/"+c.kind+"/"+k, fmt.Sprintf("config [%s] type %s: ", cfg, c.def.Name)+fmt.Sprintf(f, a...)+"\n"+c02Context(u, c), c02Replay(u, c))
+			r.Violation(c02Prefix+"/"+c.kind+"/"+k, fmt.Sprintf("config [%s] type %s: ", cfg, c.def.Name)+fmt.Sprintf(f, a...)+"\n"+c02Context(u, c), c02Replay(u, c))
 		}
 		r.Eval(1)
 		if pn := strOf(gr["panic"]); pn != "" {
